@@ -166,7 +166,7 @@ def case_term(i, p, r, o):
     return "(mkGCase %d %s %s %s %s %s %s)" % (i, env, synth.r_nats(order), r_set_pkg(tree, r), inj, coq_list(vals), obs), kind
 
 
-HEADER = ("From Coq Require Import List String.\nFrom Wire Require Import Sets Front Model Names Emit.\n"
+HEADER = ("From Coq Require Import List String.\nFrom Wire Require Import Sets Front Model Names Emit Bridge.\n"
           "Import ListNotations.\nOpen Scope string_scope.\n")
 
 
@@ -183,13 +183,17 @@ def run_gcases(progs, renders, obs, workdir, tag, shard=150):
             fh.write(HEADER)
             fh.write("Definition cases : list gcase := [\n" + ";\n".join(chunk) + "\n].\n")
             fh.write("Definition M := Eval vm_compute in gmismatches cases.\nPrint M.\n")
+            fh.write("Definition W := Eval vm_compute in map gk_id (filter (fun k => let a := map snd (i_params (gk_inj k)) in "
+                     "match analyze (gk_order k) (gk_root k) a (i_out (gk_inj k)) (i_cleanup (gk_inj k)) (i_err (gk_inj k)) with ROk pm _ => negb (wfb pm a) | _ => false end) cases).\nPrint W.\n")
         rc, out, err = coqc(f)
         m = re.search(r"M\s*=\s*(\[.*?\])\s*:\s*list nat", out, re.S)
-        if rc != 0 or not m:
+        w = re.search(r"W\s*=\s*(\[.*?\])\s*:\s*list nat", out, re.S)
+        if rc != 0 or not m or not w:
             raise RuntimeError("coqc failed on %s: rc=%d\n%s\n%s" % (f, rc, out[-2000:], err[-3000:]))
-        body = m.group(1).strip()[1:-1].strip()
-        if body:
-            mism += [int(x) for x in body.split(";")]
+        for mm in (m, w):
+            body = mm.group(1).strip()[1:-1].strip()
+            if body:
+                mism += [int(x) for x in body.split(";") if int(x) not in mism]
     return mism, kinds
 
 
